@@ -826,6 +826,21 @@ int main(int argc, char **argv)
   }
   std::vector<History> cases;
   build_cases(cases);
+  // a few cases written out: the first 2-thread history of each (API, kind of word) with some content
+  std::set<size_t> sample_idx;
+  {
+    std::set<std::string> seen;
+    for (size_t i = 0; i < cases.size(); i++) {
+      const History &h = cases[i];
+      if (h.specs.size() != 2 || h.specs[0].size() < 5 || h.specs[1].size() < 4)
+        continue;
+      std::string key = std::string(1, h.api) + (h.specs[0][0] == 'L' ? "L" : "w");
+      if (h.specs[0][0] == 'L' && h.specs[0].compare(0, 3, "L81") != 0)
+        continue;
+      if (seen.insert(key).second)
+        sample_idx.insert(i);
+    }
+  }
   const int nshards = 64;
   // long logs last: order is fixed, shard = index mod nshards
   vr::run_sharded(nshards, [&](int shard, long long resume_after) {
@@ -841,8 +856,8 @@ int main(int argc, char **argv)
       std::string r = cases[i].text();
       vr::begin_case((long long)i, "trace history|harness parser", r);
       run_history(cases[i], r, file);
-      if (cases[i].specs.size() == 3 && cases[i].specs[0].size() >= 4)
-        vr::sample(r, std::string("t") + cases[i].api + (cases[i].specs[0][0] == 'L' ? "L" : "w"));
+      if (sample_idx.count(i))
+        vr::sample(r);
     }
     if (stopped)
       vr::capped("trace shard " + std::to_string(shard) + " stopped at the deadline");
